@@ -203,12 +203,19 @@ ApplyOrderBad(evs, j, last, incs) ==   \* evs: Applied events of this record in 
           \cup ApplyOrderBad(evs, j + 1, [last EXCEPT ![e.n] = e.idx], [incs EXCEPT ![e.n] = e.inc])
 Mon_C06(hp, hn, rp, r) ==
   LET evs == Evs(r, "Applied")
+      \* a snapshot installed before this step's applies moves the node's apply position to its boundary
+      si == Evs(rp, "SnapInstall") \o Evs(r, "SnapInstall")
+      last0 == [n \in DOMAIN hp.lastApplied |->
+                  IF \E j \in 1..Len(si) : si[j].to = n /\ si[j].ok THEN 0 ELSE hp.lastApplied[n]]
   IN {V("C06", "ApplyOrder", r, IF ~Contiguous(ND(r, x[1]).log) THEN "gap-in-log" ELSE "other", ToString(x)) :
-         x \in ApplyOrderBad(evs, 1, hp.lastApplied, hp.inc)}
+         x \in ApplyOrderBad(evs, 1, last0, hp.inc)}
      \cup {V("C06", "ApplyAgreement", r, CascadeCause(hn), ToString(evs[j].idx)) :
              j \in {x \in 1..Len(evs) : evs[x].idx \in DOMAIN hp.appliedCmd /\ hp.appliedCmd[evs[x].idx] # evs[x].c}}
-     \cup {V("C06", "StateIsFold", r, CascadeCause(hn), ToString(n)) :
-             n \in {x \in NodeIds(r) : ND(r, x).snapIdx = 0 /\ ND(rp, x).kv # ND(r, x).kv /\
+     \cup {V("C06", "StateIsFold", r,
+             IF ND(r, n).snapIdx > 0 /\ \E p \in (ND(r, n).applied + 1)..(ND(r, n).applied + 3) :
+                    KvOf(r, n) = KvFold([k \in {} |-> ""], hn.appliedCmd, 1, p)
+             THEN "state-ahead-of-applied-index-after-snapshot" ELSE CascadeCause(hn), ToString(n)) :
+             n \in {x \in NodeIds(r) : ND(rp, x).kv # ND(r, x).kv /\
                        KvOf(r, x) # KvFold([k \in {} |-> ""], hn.appliedCmd, 1, ND(r, x).applied)}}
 
 \* C07: a follower's newly committed entries equal the leader's entries (leader of the request's term)
@@ -222,7 +229,7 @@ Mon_C07(hn, rp, r) ==
                     /\ ND(r, f).commit > ND(rp, f).commit
                     /\ t \in DOMAIN hn.ldrLog
                     /\ \E k \in (ND(rp, f).commit + 1)..ND(r, f).commit :
-                         k > ND(r, f).base /\
+                         k > ND(r, f).base /\ k >= FirstIdx(hn.ldrLog[t]) /\   \* comparable: not purged on either side
                          ~(HasIdx(ND(r, f).log, k) /\ HasIdx(hn.ldrLog[t], k)
                            /\ EntryAt(ND(r, f).log, k) = EntryAt(hn.ldrLog[t], k))}}
 
@@ -437,12 +444,29 @@ Mon_C32(hn, r) ==
         ToString(<<re[j].leader, re[j].writeOk, re[j].lagging>>)) :
         j \in {x \in 1..Len(re) : re[x].leader = 0 \/ ~re[x].writeOk \/ Len(re[x].lagging) > 0}}
 
+
+(***************************************************************************)
+(* C33: log compaction                                                      *)
+(***************************************************************************)
+Mon_C33(hn, rp, r) ==
+  {V("C33", "PurgeOnlyCommittedAndSnapshotted", r, "other", ToString(<<n, ND(r, n).base, ND(r, n).commit, ND(r, n).snapIdx>>)) :
+     n \in {x \in UpNodes(r) : ND(rp, x).up /\ ND(rp, x).inc = ND(r, x).inc /\ ND(r, x).base > ND(rp, x).base
+              /\ r.a.a # "DeliverSnap"          \* installing a received snapshot is not a purge decision of this node
+              /\ ~(ND(r, x).base <= ND(r, x).commit /\ ND(r, x).snapIdx >= ND(r, x).base)}}
+  \cup
+  \* a node that purged its log must hold a snapshot covering the purged prefix (otherwise lagging peers
+  \* can be served neither by log nor by snapshot) -- also right after a restart
+  {V("C33", "PurgedPrefixCoveredBySnapshot", r,
+     IF ~ND(rp, n).up THEN "snapshot-metadata-lost-by-restart" ELSE "other", ToString(<<n, ND(r, n).base, ND(r, n).snapIdx>>)) :
+     n \in {x \in UpNodes(r) : ND(r, x).first > 1 /\ ND(r, x).snapIdx + 1 < ND(r, x).first
+              /\ ~(ND(rp, x).up /\ ND(rp, x).first > 1 /\ ND(rp, x).snapIdx + 1 < ND(rp, x).first)}}
+
 Monitors(hp, hn, rp, r) ==
   Mon_C01(hp, hn, r) \cup Mon_C02(hp, hn, rp, r) \cup Mon_C03(hn, rp, r) \cup Mon_C04(hn, rp, r)
   \cup Mon_C05(hp, hn, rp, r) \cup Mon_C06(hp, hn, rp, r) \cup Mon_C07(hn, rp, r) \cup Mon_C08(hn, rp, r)
   \cup Mon_C09(hn, rp, r) \cup Mon_Client(hp, hn, r) \cup Mon_C14(hn, r) \cup Mon_C31(hp, hn, r)
   \cup Mon_C26(hn, rp, r) \cup Mon_C27(hp, hn, rp, r) \cup Mon_C28(hp, rp, r)
-  \cup Mon_C11(hn, r) \cup Mon_C12(hp, hn, rp, r) \cup Mon_C30(r) \cup Mon_C32(hn, r)
+  \cup Mon_C11(hn, r) \cup Mon_C12(hp, hn, rp, r) \cup Mon_C30(r) \cup Mon_C32(hn, r) \cup Mon_C33(hn, rp, r)
 
 (***************************************************************************)
 (* Layer 2: conformance of the observed step with the DECore operators.     *)
